@@ -28,7 +28,10 @@ import ast, json, os, sys
 
 FILES = ['trackpy/linking/linking.py', 'trackpy/linking/subnet.py', 'trackpy/linking/subnetlinker.py',
          'trackpy/linking/utils.py', 'trackpy/linking/find_link.py', 'trackpy/linking/partial.py',
-         'trackpy/linking/__init__.py', 'trackpy/predict.py', 'trackpy/utils.py']
+         'trackpy/linking/__init__.py', 'trackpy/predict.py', 'trackpy/utils.py',
+         # what a find_link job calls into for detection, relocation and characterisation
+         'trackpy/find.py', 'trackpy/feature.py', 'trackpy/masks.py', 'trackpy/preprocessing.py',
+         'trackpy/refine/center_of_mass.py', 'trackpy/uncertainty.py', 'trackpy/try_numba.py']
 
 MUTABLE_CALLS = {'dict', 'list', 'set', 'defaultdict', 'OrderedDict', 'deque', 'count', 'Counter', 'WeakValueDictionary',
                  'WeakKeyDictionary', 'array', 'zeros', 'empty', 'ones'}
